@@ -1,7 +1,7 @@
 (* C02 -- the Verilog reader yields the circuit the netlist denotes.  Statements only; proofs in Proofs/VerilogProofs.v. *)
 From CG Require Import Verilog.ExprParse.
 From stdpp Require Import strings gmap sets.
-From CG Require Import Types Sem Api Gen.Gen_grammar Verilog.Ast Verilog.Read Proofs.VerilogProofs Run.Run_C02 Proofs.VerilogReadProofs.
+From CG Require Import Types Sem Api Gen.Gen_grammar Verilog.Ast Verilog.Read Verilog.Write Proofs.VerilogProofs Run.Run_C02 Proofs.VerilogReadProofs Proofs.VerilogDenoteProofs.
 Open Scope string_scope.
 
 (* (1) obligation on the regenerated rule table of verilog.lark (expression .. primary, named_port_connection,
@@ -99,6 +99,23 @@ Theorem C02_prim_instance_exact : ∀ k t g nm n fi g', prim_instance k t g (nm,
 Proof. exact prim_instance_exact. Qed.
 Print Assumptions C02_prim_instance_exact.
 
+(* (4) read_denotes, soundness half, blackbox-free modules of the subset: every consistent valuation of the circuit that
+   was read satisfies the module - every continuous assignment and every primitive instance (expression operands, repeated
+   operands of parity gates included) holds, all 1'bx being the value of the node tie_x.  Proof: invariant `rinv` over the item
+   fold; every reader step refines on the reserved names, every equation is proved at its own step. *)
+Theorem C02_read_denotes_sound : ∀ rsv bbs m C,
+  in_subset bbs m = true → bbfree m → list_to_set (module_ids m) ⊆ rsv →
+  read rsv bbs m = Ok C → ∀ w, consistent (c_g C) w → ∃ x, sat_module m w x.
+Proof. exact read_denotes_sound. Qed.
+Print Assumptions C02_read_denotes_sound.
+(* the value lemma for primitive instances: the node type and operands chosen by module_instantiation (pairs of equal
+   operands of parity gates cancelled, all cancelled = constant) compute the Verilog primitive on the operand list *)
+Theorem C02_prim_sel_value : ∀ k t rs v, t ∈ gate_types → rs ≠ [] → (t = Buf ∨ t = Not → length rs = 1) →
+  v (k_t0 k) = false → v (k_t1 k) = true →
+  (prim_sel k t rs).2 ≠ [] ∧ gate_val (prim_sel k t rs).1 v (list_to_set (prim_sel k t rs).2) = prim_sem t (v <$> rs).
+Proof. exact prim_sel_value. Qed.
+Print Assumptions C02_prim_sel_value.
+
 (* full statement for whole modules; not proved, decided per generated module by Run_C02.holds (which evaluates the
    same guard in_subset and the executable form `denotes` of the conclusion) *)
 Definition C02_read_denotes_full : Prop := ∀ rsv bbs m,
@@ -116,6 +133,8 @@ Definition ex_mod : vmodule :=
      [IInput ["a"; "b"]; IOutput ["o"; "not_a"];
       IAssign [("o", CTern (OXor (XAnd (AUn (UNot (PId "a"))))) (OXor (XXor (XAnd (L02 (PId "a"))) (L02 (PId "b")))) (L04 (PConst K0)));
                ("not_a", L25 (AAnd (L02 (PId "a")) (UPrim (PId "b"))))]].
+Example C02_ex_bbfree : bbfree ex_mod.
+Proof. intros mn insts Hin. unfold ex_mod, Md in Hin. simpl in Hin. rewrite !elem_of_cons, elem_of_nil in Hin. naive_solver. Qed.
 Example C02_ex_in_subset : ports_match ex_mod = true ∧ in_subset [] ex_mod = true ∧ bool_decide (list_to_set (module_ids ex_mod) ⊆ ex_rsv) = true.
 Proof. vm_compute. done. Qed.
 Example C02_ex_read : match read ex_rsv [] ex_mod with Ok C => denotes [] ex_mod C | _ => false end = true.
